@@ -14,7 +14,7 @@ ANCHORS = ['phylib.io.model:TemplateModel.get_amplitudes_true', 'phylib.io.model
            'phylib.io.model:TemplateModel.get_depths']
 RULE = ('Each case = a generated dense dataset (random templates / whitening / amplitudes / features; a '
         'template without spikes at the first, a middle or the LAST position or none; clusters equal to, or '
-        'curated from, the templates; sampling rate 1 / 100 / 30000; an optional template_scaling entry in params.py; dense, sparse or absent features, some '
+        'curated from, the templates; sampling rate 1 / 100 / 30000; an optional template_scaling entry in params.py; dense, sparse or absent features, two datasets with > 100000 spikes (get_depths batches), some '
         'rows all-negative so that the positive part vanishes) loaded with the real load_model. Judged against '
         'the direct formulas on the arrays the harness wrote: get_amplitudes_true(factor in {1, 2.5, 1e-6}, '
         'use in {templates, clusters}) - scaled spike amplitudes, per-id means with NaN exactly at spikeless '
@@ -37,6 +37,9 @@ def plan(tier, seed):
 def run_shard(desc, ctx):
     for i in range(desc['cases']):
         run_case({'seed': [desc['seed'], desc['shard'], i]}, ctx)
+    if desc['shard'] < (2 if desc['cases'] < 200 else 8):
+        # size threshold: get_depths works in batches of 50000 spikes
+        run_case({'seed': [desc['seed'], desc['shard'], 999], 'large': True}, ctx)
 
 
 def ptp(x, axis):
@@ -51,6 +54,9 @@ def run_case(case, ctx):
                 spikeless=['none', 'first', 'middle', 'last'][int(rng.integers(0, 4))],
                 features=['none', 'dense', 'sparse', 'sparse'][int(rng.integers(0, 4))],
                 probes=bool(rng.integers(0, 2)), rate=[1., 100., 30000.][int(rng.integers(0, 3))], ncdat_extra=0)
+    if case.get('large'):
+        opts.update(ns=[100001, 120000, 150000][case['seed'][1] % 3], n_samples=2000000, features=['sparse', 'dense'][case['seed'][1] % 2],
+                    clusters='same', nt=4, nc=6)
     opts.update(dtype_amps=['float64', 'float32'][int(rng.integers(0, 2))],
                 dtype_templates=['float32', 'float32', 'float64'][int(rng.integers(0, 3))],
                 dtype_feat=['float32', 'float64'][int(rng.integers(0, 2))])
@@ -175,12 +181,12 @@ def _check(m, spec, desc, ctx, f0, factor):
     else:
         F = spec.pc_features[:, 0, :].astype(np.float64)        # (ns, nloc) first component
         nloc = F.shape[1]
-        exp = np.full(spec.n_spikes, np.nan)
-        for i in range(spec.n_spikes):
-            cols = spec.pc_feature_ind[st[i]].astype(np.int64) if spec.pc_feature_ind is not None else np.arange(nloc)
-            w = np.maximum(F[i], 0) ** 2
-            if w.sum() > 0:
-                exp[i] = (spec.positions[cols, 1] * w).sum() / w.sum()
+        cols = spec.pc_feature_ind.astype(np.int64)[st] if spec.pc_feature_ind is not None else \
+            np.tile(np.arange(nloc), (spec.n_spikes, 1))
+        w = np.maximum(F, 0) ** 2
+        with np.errstate(all='ignore'):
+            exp = (spec.positions[cols, 1] * w).sum(axis=1) / w.sum(axis=1)
+        exp[w.sum(axis=1) <= 0] = np.nan
         # float32 feature weights: absolute error scales with the largest channel depth, not with the result
         dd = same(r.value, exp, dtype=False, rtol=1e-4, atol=1e-5 * max(1., float(np.abs(spec.positions[:, 1]).max())))
         if dd:
